@@ -189,7 +189,7 @@ def main():
 
 
 # fix: commits in /repo (filled in as they are made)
-SOURCE_COMMITS = ["1caf915", "cac9d7b", "4b729bd", "9cd2617", "683fb85", "e7ddae4", "48f0694"]
+SOURCE_COMMITS = ["1caf915", "cac9d7b", "4b729bd", "9cd2617", "683fb85", "e7ddae4", "48f0694", "9e68f28"]
 
 if __name__ == "__main__":
     main()
